@@ -309,9 +309,11 @@ Definition do_stop (idx : Z) (err : option ekind) : act := fun s =>
   else coord_stop (mkStop idx err (S2 0)) s.
 
 (* ---- rejoin_after_error :354-426 ---- *)
+(* ghost [escaped]: "the last _join_and_sync ended with a non-Kafka exception that was only logged, and nothing has been scheduled or
+   started since" - set by gen_fail, cleared whenever a join_and_sync call is armed or a new generator starts *)
 Definition new_timer (k : tkind) (d : delay) (f : Z -> state -> state) : act := fun s =>
   let id := next_timer s in
-  (f id (set_timers ((id, k) :: timers s) (set_next_timer (id + 1) s)), [OSched k d id]).
+  (f id (set_escaped false (set_timers ((id, k) :: timers s) (set_next_timer (id + 1) s))), [OSched k d id]).
 
 Definition schedule_rejoin (d : delay) : act := fun s =>
   let s := set_rejoin_needed true s in                                (* :421-422 *)
@@ -354,7 +356,7 @@ Definition join_and_sync : act := fun s =>
          | None =>                                                    (* :459 _join_and_sync() runs to :470 *)
              let gid := next_gen s in let rid := next_rid s in
              (set_rejoin_d (Some gid) (add_gen (mkGen gid (GLookup rid))
-                (set_next_gen (gid + 1) (set_next_rid (rid + 1) s))), [OLookup rid])
+                (set_escaped false (set_next_gen (gid + 1) (set_next_rid (rid + 1) s)))), [OLookup rid])
          end.
 
 (* on_join_prepare :824-831 then :477-479 (reached with _stop_pending() false: without consumers nothing runs in between) *)
